@@ -175,6 +175,17 @@ def jobs(tier):
                 if tier == 'quick' and S == 3 and order == 'rotated' \
                         and layout != 'flat':
                     continue
+                if S == 3 and layout == 'flat':
+                    # the largest jobs, split by what the spawner generates
+                    for tag, kw in (('nospawn', dict(spawn=False)),
+                                    ('spawn0', dict(spawn=True, spawn_as=0)),
+                                    ('spawn1', dict(spawn=True, spawn_as=1)),
+                                    ('spawn2', dict(spawn=True, spawn_as=2))):
+                        out.append(dict(
+                            name='S3-flat-%s-%s' % (order, tag), S=S,
+                            layout=layout, order=order, part='run', IV=3,
+                            budget_s=100 if tier == 'quick' else 900, **kw))
+                    continue
                 out.append(dict(name='S%d-%s-%s' % (S, layout, order), S=S,
                                 layout=layout, order=order, part='run',
                                 IV=3 if S < 4 else 2,
@@ -330,12 +341,19 @@ def body(ctx, cfg):
     topology_p['p2'] = {'s': up + ('s',)}
     CTX['spawn_issued'] = False
     CTX['ctx'] = ctx
-    spawn = ctx.flag('spawn')
+    # (run-time generation is explored in the flat layout; the other layouts
+    # keep their step set)
+    if 'spawn' in cfg:
+        spawn = cfg['spawn']
+    else:
+        spawn = ctx.flag('spawn') if layout == 'flat' else False
     if spawn:
         # a deriver created at run time takes part in every later phase
         processes['spawner'] = Spawner({'name': 'spawner',
                                         'ts': ctx.int('ts', 1, 2),
-                                        'mode': ctx.choice('spawn_as', 3)})
+                                        'mode': cfg['spawn_as']
+                                        if 'spawn_as' in cfg
+                                        else ctx.choice('spawn_as', 3)})
         topology['spawner'] = {'s': ('s',), 'gen': ('gen',)}
         ctx.goal('deriver created at run time')
 
